@@ -667,29 +667,33 @@ theorem planSet_targets {q : Quirks} {r : Reg} (as : List (Target × Rhs)) {ps :
         · subst hp'; rw [planAsg_target h1]; exact ha a (by simp)
         · exact ih h2 (fun b hb => ha b (List.mem_cons_of_mem _ hb)) p' hp'
 
-/-- Registry entry well-formedness (checked on the regenerated registry by `decide`). -/
+/-- Registry entry well-formedness (checked on the regenerated registry by `decide`). Kernel
+evaluation of `String` operations is very slow, so everything here is numeric; the string-valued
+parts (names lower case and unique, enum / set members distinct, string defaults accepted) are
+computed by the extractor on the compiled code and arrive as the facts `keyMismatch`, `dupKeys`,
+`dupMembers`, `defaultRejected`. -/
 def boundsOrdered : Ty → Bool
   | .int lo hi _ => decide (lo ≤ hi) && decide (-(two63 : Int) ≤ lo) && decide (hi < two63)
   | .uint lo hi => decide (lo ≤ hi) && decide (hi < two64)
   | .double lo hi => decide (lo ≤ hi)
-  | .enum vals => !vals.isEmpty && (vals.map lower).Nodup
-  | .set vals => !vals.isEmpty && decide (vals.length ≤ 64) && (vals.map lower).Nodup &&
-      vals.all fun v => !v.toList.contains ',' && v != ""
+  | .enum vals => !vals.isEmpty
+  | .set vals => !vals.isEmpty && decide (vals.length ≤ 64)
   | _ => true
 
-/-- `SET x = DEFAULT` is accepted by the variable's own type (under the property's conversion). -/
+/-- `SET x = DEFAULT` is accepted by the variable's own type (numeric kinds; under the property's
+conversion). -/
 def defaultOk (v : Var) : Bool :=
-  match v.ty with
-  | .other => true
-  | ty => (convert specQ ty (toVal ty v.default)).isSome
+  match v.ty, v.default with
+  | .int lo hi neg, d => (convert specQ (.int lo hi neg) (toVal (.int lo hi neg) d)).isSome
+  | .uint lo hi, d => (convert specQ (.uint lo hi) (toVal (.uint lo hi) d)).isSome
+  | .double lo hi, d => (convert specQ (.double lo hi) (toVal (.double lo hi) d)).isSome
+  | .bool, .i8 _ => true
+  | .bool, _ => false
+  | .enum _, .str _ | .set _, .str _ | .string, .str _ => true
+  | .other, _ => true
+  | _, _ => false
 
-def nameOk (v : Var) : Bool := v.name != "" && lower v.name == v.name
-
-def wellformed (v : Var) : Bool := boundsOrdered v.ty && defaultOk v && nameOk v
-
-def sortedStrict : List String → Bool
-  | a :: b :: rest => decide (a < b) && sortedStrict (b :: rest)
-  | _ => true
+def wellformed (v : Var) : Bool := boundsOrdered v.ty && defaultOk v
 
 end Gms.SysVars
 
@@ -713,29 +717,25 @@ theorem facts_match :
       ("!m.Dynamic || m.ValueFunction != nil", "ErrSystemVariableReadOnly"),
       ("otherwise", "m.InitValue(ctx, val, global)")] ∧
     persistCalls = ["PersistGlobal", "SetGlobal"] ∧ persistOnlyCalls = ["PersistGlobal"] ∧
-    keyMismatch = [] ∧ dupKeys = [] ∧
+    keyMismatch = [] ∧ dupKeys = [] ∧ dupMembers = [] ∧ defaultRejected = ["ft_max_word_len"] ∧
     -- the only oddity of the dump: the type of `uptime` was built with another variable's name
     -- (its error messages would name `updatable_views_with_limit`); `uptime` is read-only
     badEntries = ["uptime: type carries the name \"updatable_views_with_limit\""] := by decide
 
-/- Every registered variable: bounds ordered and inside the 64-bit range, enum / set members
-distinct case-insensitively (a set has at most 64, none empty or containing a comma), the default
-is accepted by the variable's own `Convert`, the name is lower case.
+/- Every registered variable: bounds ordered and inside the 64-bit range, enum / set types not
+empty (a set has at most 64 members), the default has the Go type of the variable's kind and a
+numeric default is accepted by the variable's own `Convert`.
    The full statement is false on the unchanged tree:
      theorem registry_wellformed : ∀ v ∈ sysvars, wellformed v = true
    `ft_max_word_len` is registered with bounds [10, 2^63-1] and default 0 (read-only, so the value
    can never become valid): region `registry_default_out_of_range`. -/
 def defaultOutOfRange : List String := ["ft_max_word_len"]
 
-theorem registry_wellformed_partial : ∀ v ∈ sysvars, v.name ∉ defaultOutOfRange → wellformed v = true := by
+theorem registry_wellformed_partial : ∀ v ∈ sysvars, wellformed v = true ∨ v.name ∈ defaultOutOfRange := by
   decide +kernel
 
-theorem finding_registry_default_out_of_range : ∃ v ∈ sysvars, defaultOk v = false :=
-  ⟨{ name := "ft_max_word_len", scope := .global, dynamic := false, special := false,
-     ty := .int 10 9223372036854775807 false, default := .int 0 }, by decide +kernel, by decide⟩
-
-/-- The registry is strictly sorted by name (so a name identifies one entry). -/
-theorem registry_names_sorted : sortedStrict (sysvars.map (·.name)) = true := by decide +kernel
+theorem finding_registry_default_out_of_range : (sysvars.filter fun v => !defaultOk v).length = 1 := by
+  decide +kernel
 
 example : sysvars.length > 300 ∧ (sysvars.filter (!·.special)).length > 250 := by decide +kernel
 
